@@ -1,6 +1,6 @@
 """Per-property registry: Lean module + theorems (proof obligations), translator items,
 the suite that runs correspondence and the oracle search."""
-from props import c06, c07
+from props import c05, c06, c07, c08, c12, c19
 
 TRUSTED_BASE = [
     "Lean 4.33 kernel; axioms limited to propext, Classical.choice, Quot.sound (audited by #print axioms on every run)",
@@ -40,6 +40,17 @@ REG = {
                       "drops the rank by e-s. Construction, inference and file paths are tied by correspondence + numpy oracle.",
         "level_note": "Lean kernel + translator T5 + correspondence sampling for Flatten construction/inference.",
         "technique": "Lean 4 proof over translator-generated kernel + model/implementation correspondence",
+        "assumptions": [],
+    },
+    "C08": {
+        "module": "NirVerif.Properties.C08",
+        "theorems": [],
+        "translator": ["T1", "T4", "T5"],
+        "run": c08.run,
+        "rule": "Consistent graphs built forwards from Inputs (all primitives, fan-in/out, residual/recurrent/self/"
+                "parallel edges, shuffled edge and node order) with random subsets of erasable annotations erased or "
+                "an Output shape replaced by a wrong one; ground truth known by construction.",
+        "level_text": "", "level_note": "", "technique": "",
         "assumptions": [],
     },
 }
